@@ -1,4 +1,5 @@
 """Family misc: C27 (protodelim framing), C32 (protorange traversal), C33 (protoregistry name table)."""
+import json
 import os
 import vlib
 from props import check, cfg, MODULE_OF, HARNESS_PKGS
@@ -61,26 +62,57 @@ def _range_key(e):
             hits.append([c, "push" if walk[k - 1] > 0 else "pop", n["s"], n["c"]])
         else:
             hits.append([c, "beyond"])
-    return [e.get("typ", "tree"), e["stable"], hits, obs.get("ret"), kinds if len(kinds) <= 6 else len(kinds), min(len(tree), 12)]
+    return [e.get("typ", "tree"), e["stable"], e.get("cb", 0), hits, obs.get("ret"), kinds if len(kinds) <= 6 else len(kinds), min(len(tree), 12)]
+
+
+def _drive_validate_twice(res, binary, module, trace_module, seed, n, key):
+    """C->S for executions that are legitimately nondeterministic (unordered traversals): a rejected event is re-executed and the
+    NEW recording is validated again; only a case whose second execution is rejected too is reported (with that recording)."""
+    gen = os.path.join(scratch(), "%s-gen-%d.ndjson" % (module, seed))
+    tr = os.path.join(scratch(), "%s-trace-%d.ndjson" % (module, seed))
+    vlib.harness(binary, ["gen", module, seed, n, gen])
+    vlib.harness(binary, ["exec", module, gen, tr])
+    total, bad = vlib.validate_trace(trace_module, tr)
+    vlib.log("validated %d %s events against %s: %d rejected" % (total, module, trace_module, len(bad)))
+    events = list(vlib.read_ndjson(tr))
+    for i, ev in enumerate(events):
+        k = key(ev)
+        res.distinct.add(k if isinstance(k, str) else json.dumps(k, sort_keys=True))
+        if i % 1999 == 0:
+            res.sample(json.dumps(ev, sort_keys=True)[:1200])
+    if bad:
+        rp = os.path.join(scratch(), "%s-repro.ndjson" % module)
+        with open(rp, "w") as fh:
+            for i in bad:
+                fh.write(json.dumps({k: v for k, v in events[i].items() if k != "out"}) + "\n")
+        vlib.harness(binary, ["exec", module, rp, rp + ".out"])
+        _, bad2 = vlib.validate_trace(trace_module, rp + ".out", shards=1)
+        again = list(vlib.read_ndjson(rp + ".out"))
+        for j in bad2:
+            res.fail(dict(again[j], _module=module, _trace=trace_module),
+                     "trace: specification rejects the recorded event (rejected again on re-execution)")
+    res.trace_events += total
+    res.evaluations += total
+    res.traces += 1
 
 
 @check("C32")
 def c32(res, tier, seed):
     b = build_harness(("misc",))
     tour = os.path.join(scratch(), "c32.tour")
-    r = tlc("MC_RangeWalk", cfg(_tier(tier), invariants=["LawNested", "LawOnce", "LawAtMostOnce", "LawBreak", "LawStop", "LawAccept", "LawMirror"],
+    r = tlc("MC_RangeWalk", cfg(_tier(tier), invariants=["LawNested", "LawOnce", "LawAtMostOnce", "LawBreak", "LawStop", "LawAccept", "LawMirror", "LawStrict", "LawOneSided"],
                                 emit="Emit"), emit_to=tour, timeout=3000)
     res.add_tlc(r, "every canonical tree of steps up to the node bound over the schema rw.N x every control value at every callback "
                    "position (pairs on small trees); laws: nesting, exactly-once, Break/Terminate characterisations, recursive walk = "
                    "stack automaton, mirrored order accepted iff unstable")
     res.exhaustive = True
     replay_tour(res, b, "rangewalk", tour, key=_range_key)
-    n = 3000 if tier == "quick" else 60000
-    drive_and_validate(res, b, "rangewalk", "Trace_RangeWalk", seed, n, key=_range_key)
+    n = 2000 if tier == "quick" else 60000
+    _drive_validate_twice(res, b, "rangewalk", "Trace_RangeWalk", seed, n, _range_key)
     res.rule = ("tour: each tree of steps (fields, list elements, map entries with int/string/bool keys, unknown sets, Any bodies, "
                 "extensions, oneof members) is rendered to a dynamicpb message and traversed with Stable order for every single "
-                "control value Break/Terminate/error at every push and pop position (and all pairs on small trees), plus once "
-                "unordered; the recorded walk, the value shown at each push, the path/value consistency flag and the returned error "
+                "control value Break/Terminate/error at every push and pop position (and all pairs on small trees), with push-only "
+                "(protorange.Range) and pop-only callbacks, plus unordered; the recorded walk, the value shown at each push, the path/value consistency flag and the returned error "
                 "must equal the specification's; distinct = (source, order, control hit kinds, result, step kinds, size class); "
                 "driver: random messages of rw.N (resolvable / unresolvable / undecodable Any) and 7 generated corpus types, "
                 "projected to trees with the plain reflection API, 0-2 control values, both orders, validated by Trace_RangeWalk")
@@ -89,3 +121,38 @@ def c32(res, tier, seed):
     res.notes.append("'each step's value equals the value obtained by applying that step to its parent value' is evaluated by the harness "
                      "with protoreflect accessors and Value.Equal at every callback and enters the specification as the flag ok = 1; "
                      "leaf values enter as integer codes (small ints verbatim, everything else hashed)")
+
+
+# ============================================================================ C33: protoregistry
+def _reg_key(e):
+    """class of a history: which operations occurred with which result, and how many registrations succeeded"""
+    obs = (e.get("exp") or e.get("out") or {}).get("obs", [])
+    pairs = sorted({(s["op"], o["r"], min(len(o["ids"]), 3)) for s, o in zip(e["steps"], obs)})
+    regs = [(s["op"], s["f"], s["d"], o["r"]) for s, o in zip(e["steps"], obs) if s["op"].startswith("reg")]
+    return [pairs if len(e["steps"]) < 40 else "snapshot", regs[:6]]
+
+
+@check("C33")
+def c33(res, tier, seed):
+    b = build_harness(("misc",))
+    tour = os.path.join(scratch(), "c33.tour")
+    r = tlc("MC_Registry", cfg(_tier(tier), invariants=["PoolWellFormed", "LookupExact", "TableExact", "ConflictIff", "FailedChangesNothing", "TypesExact"],
+                               emit="Emit", view="view"), emit_to=tour, timeout=3000)
+    res.add_tlc(r, "all RegisterFile histories (Files) and all RegisterMessage/Enum/Extension histories (Types) up to the bound over a "
+                   "pool of files overlapping in path, package, declaration names of every kind and extension (message, number); laws: "
+                   "prefix-walk lookup = unique declaration with that full name, table = packages + top-level names, success iff no "
+                   "conflict (stated over the set of registered files), failure changes nothing, type tables exact")
+    res.exhaustive = True
+    replay_tour(res, b, "registry", tour, key=_reg_key)
+    n = 1500 if tier == "quick" else 40000
+    drive_and_validate(res, b, "registry", "Trace_Registry", seed, n, key=_reg_key)
+    res.rule = ("tour: every transition of the bounded registration machine emitted as a whole history followed by a snapshot of every "
+                "lookup (each full name of each declaration of each pool file, every package prefix, non-names such as Enum.VALUE, "
+                "every path, URL, extension key), count and range; abstract files are rendered to real descriptors with "
+                "protodesc.NewFile and dynamicpb types; distinct = (operations x results seen, registration sequence); driver: 2-5 "
+                "random files over packages {'', a, a.b, a.b.c, b, c, a.M} and names {a,b,c,M,E,V,S,x} with nested messages, enums, "
+                "oneofs, extensions, services, 6-17 random registrations and queries, validated by Trace_Registry")
+    res.assumptions.append("results are identified through the harness's map real descriptor -> (file index, declaration index), built by "
+                           "walking each descriptor independently of the registries")
+    res.notes.append("which of several simultaneous conflicts is reported is not compared (only success/failure); local registries only: the "
+                     "conflict policy of the global registries (GOLANG_PROTOBUF_REGISTRATION_CONFLICT) is outside the property")
